@@ -102,7 +102,10 @@ func (total *Acc) merge(a *Acc) {
 }
 
 // pushCtx remembers the raw line about to be replayed (at most ctxLines lines, ctxBytes bytes)
-const ctxLines, ctxBytes = 4, 4 << 20
+const ctxBytes = 4 << 20
+
+// ctxLines: how many lines a mismatch carries as context (sessions are short lines and state can come from far back)
+var ctxLines = 4
 
 func (a *Acc) pushCtx(line string) {
 	a.mu.Lock()
@@ -198,6 +201,7 @@ type family struct {
 	replay   replayFn
 	record   recordFn
 	serial   bool // must not run concurrently (touches package-level options)
+	ctxLines int  // lines of context kept for a mismatch (default 4)
 	rule     string
 	initOnce func()
 }
@@ -265,6 +269,9 @@ func doReplay(args []string) {
 	}
 	if f.initOnce != nil {
 		f.initOnce()
+	}
+	if f.ctxLines > 0 {
+		ctxLines = f.ctxLines
 	}
 	a := newAcc(name)
 	a.Rule = f.rule
